@@ -104,6 +104,9 @@ def run(repo, R):
     R.rule("K", "contract K: (M_1, L_1, M_2, L_2, M_3, L_3, M_4, L_4) on both dispatch branches")
     R.rule("ALLS", "all-s closed form = the same start value at m = 0, contracted once per shell, dispatched exactly when all four l are 0")
     R.rule("NOTATION", "notation validated against {physicist, chemist}; physicist = chemist array with axes (0,2,1,3); chemist untouched")
+    R.rule("BOYS", "the Boys function the electron-repulsion class inherits is 1F1(m+1/2; m+3/2; -x)/(2m+1) on its whole domain")
+    from .c03 import boys_rule
+    boys_rule(repo, R)
     R.rule("MPT", "every return passes through the recursion / closed form")
     R.rule("AXTYPE-K", "well-typed in the axis-provenance domain")
     feri = repo.func(ERI)
@@ -335,6 +338,13 @@ def run(repo, R):
                     "the physicists' array must be the chemists' array with the two middle indices exchanged, and the chemists' array must be returned untouched"
                     + f" (for notation='{notation}' this return gives the array " + ("with another permutation" if v[1] == "other" else "exchanged" if v[1] else "unexchanged") + ")",
                     where=w.where(rst), expected="axes (0, 2, 1, 3)" if want_swapped else "the assembled array as it is", found=ast.unparse(rst.value)[:80])
+    # the property is stated for Cartesian, spherical and mixed bases and with a transformation: the assembly of this operator's base
+    # class (norm once per index, own Cartesian->spherical matrix, segment-major blocks, transformation on every index) is part of it
+    from ..report import compose as _compose
+    from . import c09 as _c09
+    _bases = ('base_four_symm',)
+    _compose(R, "C09", _c09.run, repo, keep=lambda fd: any(b_ in (fd.where or "") or b_ in fd.site for b_ in _bases) or "spherical.py" in (fd.where or ""),
+             why="results for spherical / mixed / transformed bases are assembled by " + ", ".join(_bases))
     R.assumptions += ["Head-Gordon/Pople and Obara-Saika two-electron recurrences as in DESIGN.md 2.2", "Boys function uninterpreted apart from its arguments",
                       "assembly and the eight-fold fill under C09/C11"]
     return ("STENCIL + AXTYPE on the electron-repulsion kernel chain, both dispatch branches: the thirty stores of the six recursion tables are "
